@@ -142,6 +142,8 @@ func (e *Engine) LoadContracts(libDir string) error {
 				k = "field|" + cf.PkgPath + "|" + b.Key
 			case "lemma":
 				k = "lemma|" + b.Key
+			case "struct":
+				k = "struct|" + cf.PkgPath + "|" + b.Key
 			}
 			if _, dup := e.blocks[k]; dup {
 				return fmt.Errorf("%s:%d: duplicate contract block %s", b.File, b.Line, k)
@@ -436,7 +438,7 @@ func (e *Engine) blocksFor(prop string) []*Block {
 	var out []*Block
 	for _, cf := range e.files {
 		for _, b := range cf.Blocks {
-			if b.Kind != "func" && b.Kind != "lemma" {
+			if b.Kind != "func" && b.Kind != "lemma" && b.Kind != "struct" {
 				continue
 			}
 			if prop == "" || b.HasProp(prop) {
